@@ -19,6 +19,7 @@ from lib.proggen import ProgGen
 from lib.props.c01 import adversarial, mutate, vm_stream
 
 STRUCT = [
+    "i = 0; while i < 3 { i = i + 1; `{% if i > 1 { break } %}` }; i", "i = 0; while i < 3 { i = i + 1; `a{% continue %}b` }; i",
     # break / continue inside a stored body (function / computed value) defined in a loop — also AFTER a nested definition inside that body
     # has ended: the loop around the definition is not the body's loop (rejected, or compiled to a jump inside the body's own code)
     "i = 0; while i < 3 { i = i + 1; func f(a) { &x = a + 1; if a > 1 { break }; x }; f(i) }; i",
